@@ -59,6 +59,15 @@ class _PositioningTracker:
             if not is_tab_offset:
                 self._repositioning_required = True
 
+    def reset(self):
+        """Forget the rows addressed so far (a new caption is being composed
+        in an empty memory); the default position is kept.
+        """
+        self._positions = [None]
+        self._break_required = False
+        self._repositioning_required = False
+        self._last_column = None
+
     def get_current_position(self):
         """Returns the current usable position
 
